@@ -67,16 +67,18 @@ def written_keys(fn):
                 walk_dict(k.value, path)
             else:
                 out[path] = attr_of(k.value)
+    rets = [r.value.id for r in walk_no_nested(fn) if isinstance(r, ast.Return) and isinstance(r.value, ast.Name)]
+    dvar = rets[-1] if rets else 'data'
     for n in walk_no_nested(fn):
         if isinstance(n, ast.Assign) and isinstance(n.value, ast.Call) and isinstance(n.value.func, ast.Name) and n.value.func.id == 'dict' \
-                and isinstance(n.targets[0], ast.Name) and n.targets[0].id == 'data':
+                and isinstance(n.targets[0], ast.Name) and n.targets[0].id == dvar:
             walk_dict(n.value, ())
         if isinstance(n, ast.Assign) and isinstance(n.targets[0], ast.Subscript):
             t, path = n.targets[0], []
             while isinstance(t, ast.Subscript) and isinstance(t.slice, ast.Constant):
                 path.append(t.slice.value)
                 t = t.value
-            if isinstance(t, ast.Name) and t.id == 'data' and path:
+            if isinstance(t, ast.Name) and t.id == dvar and path:
                 out[tuple(reversed(path))] = attr_of(n.value)
                 if isinstance(n.value, ast.Name):
                     # data['trims'] = trim_data  with  trim_data = dict(count=..., data=...)
@@ -193,12 +195,14 @@ def ag1(m, run):
 # ---------------------------------------------------------------------------------------------- AG2 + layout + weight form
 def writer_records(fn, objvar):
     """header records of a line-oriented writer: list of lists of attribute names, up to the point loop; -> (records, trailing)"""
+    wf = [c for c in walk_no_nested(fn) if isinstance(c, ast.Call) and norm(c.func).endswith('write_file') and len(c.args) >= 2 and isinstance(c.args[1], ast.Name)]
+    lvar = wf[0].args[1].id if wf else 'line'
     recs = []
     for n in sorted([x for x in walk_no_nested(fn) if isinstance(x, (ast.Assign, ast.AugAssign))], key=lambda x: (x.lineno, x.col_offset)):
         val = None
-        if isinstance(n, ast.Assign) and isinstance(n.targets[0], ast.Name) and n.targets[0].id == 'line':
+        if isinstance(n, ast.Assign) and isinstance(n.targets[0], ast.Name) and n.targets[0].id == lvar:
             val = n.value
-        elif isinstance(n, ast.AugAssign) and isinstance(n.target, ast.Name) and n.target.id == 'line' and not _in_point_loop(n):
+        elif isinstance(n, ast.AugAssign) and isinstance(n.target, ast.Name) and n.target.id == lvar and not _in_point_loop(n):
             val = n.value
         if val is None:
             continue
@@ -218,18 +222,31 @@ def _in_point_loop(n):
     return False
 
 
+def content_var(fn):
+    """the local holding the split lines of the file: the name most often indexed [const][const]"""
+    cnt = {}
+    for x in walk_no_nested(fn):
+        if isinstance(x, ast.Subscript) and isinstance(x.value, ast.Subscript) and isinstance(x.value.value, ast.Name) \
+                and isinstance(x.slice, ast.Constant) and isinstance(x.value.slice, ast.Constant):
+            cnt[x.value.value.id] = cnt.get(x.value.value.id, 0) + 1
+    if not cnt:
+        raise AnalysisError('reader: no record/field accesses found')
+    return max(cnt, key=cnt.get)
+
+
 def reader_fields(fn):
     """{(record, field or None): attribute or local name} from content[i][j] / content[i] reads"""
     out = {}
+    content = content_var(fn)
     for n in walk_no_nested(fn):
         if isinstance(n, ast.Assign):
             t = n.targets[0]
             tname = t.attr if isinstance(t, ast.Attribute) else (t.id if isinstance(t, ast.Name) else None)
             for x in ast.walk(n.value):
-                if isinstance(x, ast.Subscript) and isinstance(x.value, ast.Subscript) and norm(x.value.value) == 'content' \
+                if isinstance(x, ast.Subscript) and isinstance(x.value, ast.Subscript) and norm(x.value.value) == content \
                         and isinstance(x.slice, ast.Constant) and isinstance(x.value.slice, ast.Constant):
                     out[(x.value.slice.value, x.slice.value)] = tname
-                elif isinstance(x, ast.Subscript) and norm(x.value) == 'content' and isinstance(x.slice, ast.Constant) and \
+                elif isinstance(x, ast.Subscript) and norm(x.value) == content and isinstance(x.slice, ast.Constant) and \
                         not (isinstance(getattr(x, '_sa_parent', None), ast.Subscript) and x._sa_parent.value is x):
                     out[(x.slice.value, None)] = tname
     return out
@@ -314,14 +331,19 @@ def ag2_and_layout(m, run):
             if rec in (1, 2) and fld is not None:
                 a = suffix_axis(tname)
                 wattr = want[rec][fld] if fld < len(want[rec]) else None
-                ok = a == fld and wattr is not None and (tname == wattr or (rec == 2 and tname.startswith('dim_')))
+                if rec == 2:
+                    # the size local flows to position `fld` of set_ctrlpts(list, su, sv[, sw]) (checked by LY3 below); here: record/field only
+                    ok = wattr is not None
+                else:
+                    ok = a == fld and wattr is not None and tname == wattr
                 run.ob('AG2.record-table', key, ok, 'field %d of record %d is `%s` on both sides' % (fld, rec, wattr) if ok else
                        'the reader takes `%s` from field %d of record %d, where the writer puts `%s`' % (tname, fld, rec, wattr), site(fr))
             elif rec >= 3 and fld is None and tname.startswith('knotvector'):
                 ok = rec < len(want) and want[rec] == [tname]
                 run.ob('AG2.record-table', key, ok, 'record %d is %s on both sides' % (rec, tname) if ok else 'the reader takes %s from record %d, where the writer puts %s' % (tname, rec, want[rec] if rec < len(want) else 'points'), site(fr))
         # points start after the header
-        sl = [x for x in walk_no_nested(fr.node) if isinstance(x, ast.Subscript) and norm(x.value) == 'content' and isinstance(x.slice, ast.Slice)]
+        cvar = content_var(fr.node)
+        sl = [x for x in walk_no_nested(fr.node) if isinstance(x, ast.Subscript) and norm(x.value) == cvar and isinstance(x.slice, ast.Slice)]
         okp = len(sl) == 1 and isinstance(sl[0].slice.lower, ast.Constant) and sl[0].slice.lower.value == len(want)
         run.ob('AG2.record-table', '%s :: first point record' % rname, okp, 'points are read from record %d, after %d header records' % (len(want), len(want)) if okp else
                'the writer emits %d header records but the reader starts reading points at %s' % (len(want), norm(sl[0].slice.lower) if sl else '?'), site(fr))
@@ -330,18 +352,23 @@ def ag2_and_layout(m, run):
         itw = Interp(wname, {ovar: S}, summ, select=lambda t: None)
         itw.run(loops[0].body)
         ld.emit(run, fw, itw, '[writer]')
-        Lfile = itw.env.get('ctrlptsw')
+        wf = [c for c in walk_no_nested(fw.node) if isinstance(c, ast.Call) and norm(c.func).endswith('write_file') and len(c.args) >= 2 and isinstance(c.args[1], ast.Name)]
+        lvar = wf[0].args[1].id if wf else 'line'
+        ploops = [n for n in ast.walk(loops[0]) if isinstance(n, ast.For) and isinstance(n.iter, ast.Name) and isinstance(n.target, ast.Name) and _writes_line(n, lvar)]
+        if len(ploops) != 1:
+            raise AnalysisError('%s: point record loop not found' % wname)
+        Lfile = itw.env.get(ploops[0].iter.id)
         Lfile = itw.finish(Lfile) if isinstance(Lfile, Fresh) else Lfile
         if not isinstance(Lfile, Lay):
             raise AnalysisError('%s: file layout of the point records not resolved (%r)' % (wname, Lfile))
         run.extra.setdefault('file_layouts', {})[wname] = repr(Lfile)
 
         class RInterp(Interp):
-            def ev(self, e, _L=Lfile):
-                if isinstance(e, ast.Subscript) and norm(e.value) == 'content' and isinstance(e.slice, ast.Slice):
+            def ev(self, e, _L=Lfile, _c=cvar):
+                if isinstance(e, ast.Subscript) and norm(e.value) == _c and isinstance(e.slice, ast.Slice):
                     return _L
                 if isinstance(e, ast.Call) and norm(e.func) == 'int' and e.args and isinstance(e.args[0], ast.Subscript) \
-                        and isinstance(e.args[0].value, ast.Subscript) and norm(e.args[0].value.value) == 'content':
+                        and isinstance(e.args[0].value, ast.Subscript) and norm(e.args[0].value.value) == _c:
                     rec, fld = e.args[0].value.slice.value, e.args[0].slice.value
                     if rec == 2:
                         return S.size(fld)
@@ -356,14 +383,14 @@ def ag2_and_layout(m, run):
             raise AnalysisError('%s: set_ctrlpts of the reader not resolved' % rname)
         # ---------------- weight form
         envw, formw = weight_form(fw.node, ovar)
-        emitted = [n.iter for n in walk_no_nested(fw.node) if isinstance(n, ast.For) and isinstance(n.iter, ast.Name) and n.iter.id in envw and _writes_line(n)]
+        emitted = [n.iter for n in walk_no_nested(fw.node) if isinstance(n, ast.For) and isinstance(n.iter, ast.Name) and n.iter.id in envw and _writes_line(n, lvar)]
         fw_form = envw.get(emitted[0].id) if emitted else None
         run.ob('WV1.weight-form', '%s :: points written' % wname, fw_form == 'U4',
                'file receives (x, y, z, w): weighted points divided by their weight' if fw_form == 'U4' else
                'the point records are written in form %s; the format stores (x, y, z, w), i.e. weighted points passed through generate_ctrlpts_weights' % fw_form, site(fw))
         start = {}
         for n in walk_no_nested(fr.node):
-            if isinstance(n, ast.Assign) and isinstance(n.targets[0], ast.Name) and isinstance(n.value, ast.Subscript) and norm(n.value.value) == 'content':
+            if isinstance(n, ast.Assign) and isinstance(n.targets[0], ast.Name) and isinstance(n.value, ast.Subscript) and norm(n.value.value) == cvar:
                 start[n.targets[0].id] = 'U4'
         envr, formr = weight_form(fr.node, None, start)
         sc = [c for c in walk_no_nested(fr.node) if isinstance(c, ast.Call) and isinstance(c.func, ast.Attribute) and c.func.attr == 'set_ctrlpts']
@@ -373,8 +400,8 @@ def ag2_and_layout(m, run):
                'set_ctrlpts of the rational shape receives points in form %s, it expects weighted points' % rform, site(fr))
 
 
-def _writes_line(loop):
-    return any(isinstance(x, ast.AugAssign) and isinstance(x.target, ast.Name) and x.target.id == 'line' for x in ast.walk(loop))
+def _writes_line(loop, lvar='line'):
+    return any(isinstance(x, ast.AugAssign) and isinstance(x.target, ast.Name) and x.target.id == lvar for x in ast.walk(loop))
 
 
 # ---------------------------------------------------------------------------------------------- text / csv
